@@ -259,10 +259,16 @@ def is_zero(expr, seed=0):
     except Exception:          # sympy gave up or timed out: fall through to the numeric test
         pass
     # a numeric witness decides quickly when the identity is false
-    rng = random.Random(seed)
-    val = numeric_eval(expr, rng)
-    if val is not None and abs(val) > 1e-9:
-        return 'refuted', 'numeric witness (random polynomial jets, seed %d): difference = %s' % (seed, val)
+    # (several independent samples: an identity that fails only where some sub-expression is negative -- |det J| against det J --
+    # is missed by a single sample half of the time)
+    val = None
+    for k in range(4):
+        rng = random.Random(seed + 7919 * k)
+        vk = numeric_eval(expr, rng, flip=bool(k % 2))
+        if vk is not None and abs(vk) > 1e-9:
+            return 'refuted', 'numeric witness (random polynomial jets, seed %d, sample %d): difference = %s' % (seed, k, vk)
+        if vk is not None:
+            val = vk
     try:
         with _time_limit(SYMPY_LIMIT_S):
             if sp.simplify(d) == 0:
@@ -300,7 +306,7 @@ class _time_limit:
         return False
 
 
-def numeric_eval(expr, rng):
+def numeric_eval(expr, rng, flip=False):
     xs = sorted([s for s in expr.free_symbols if s.name.startswith('xi')], key=lambda s: s.name)
     funcs = sorted(expr.atoms(sp.Function), key=str)
     funcs = [f for f in funcs if isinstance(f, sp.core.function.AppliedUndef)]
@@ -313,7 +319,8 @@ def numeric_eval(expr, rng):
             if f.func.__name__.startswith('G'):
                 # keep the geometry close to the identity so that the Jacobian is invertible
                 idx = int(f.func.__name__[1:])
-                poly = (args[idx] if idx < len(args) else 0) * 3 + poly / 7
+                # (flip: the first component is mirrored, i.e. an orientation-reversing map with det J < 0)
+                poly = (args[idx] if idx < len(args) else 0) * (-3 if flip and idx == 0 else 3) + poly / 7
             heads[f.func] = sp.Lambda(args, poly)
     try:
         e = expr
